@@ -5,9 +5,9 @@ PUBCRATE = ("R1", r"\bpub\(crate\)\s+", "pub ", "visibility widened")
 FAMILIES = {}
 
 FAMILIES["stack"] = {
-    "anchor": "src/run.rs stack helpers, context instructions, exec_clean_stack; src/algorithm/mod.rs try_/try_sig; parser/src/signature.rs",
+    "anchor": "src/run.rs stack helpers, context instructions, exec_clean_stack; src/run_prim.rs run_prim_mod arms Fork / Bracket / Memo; src/algorithm/mod.rs try_/try_sig; parser/src/signature.rs",
     "bound": "stack length <= 4, under-stack length <= 2, counts <= 5 (concrete sizes, symbolic contents)",
-    "header": "use crate::shim::*;\n",
+    "header": "use crate::shim::*;\nuse std::borrow::BorrowMut;\n",
     "rewrites": (PUBCRATE,),
     # parametricity guard: no Value method other than clone may appear in the extracted text
     "forbid": r"\.(unbox|unboxed|shape|row_count|rank|as_[a-z_]+|try_shrink|into_rows|validate)\(",
@@ -39,6 +39,8 @@ FAMILIES["stack"] = {
              "sig": "pub fn rt_arm_bracket(mut ops: Ops, env: &mut Uiua) -> UiuaResult", "epilogue_ok": True,
              "rewrites": (("R6", r"SmallVec<\[Vec<Value>; 3\]>", "Vec<Vec<Value>>", "SmallVec -> Vec (inline capacity is not modelled)"),
                           ("R6", r"SmallVec::new\(\)", "Vec::new()", "SmallVec -> Vec"))},
+            {"kind": "arm", "name": "run_prim_mod Memo arm", "file": "src/run_prim.rs", "fn": "run_prim_mod", "arm": r"Primitive::Memo",
+             "sig": "pub fn rt_arm_memo(mut ops: Ops, env: &mut Uiua) -> UiuaResult", "epilogue_ok": True},
             {"kind": "fn", "file": "src/algorithm/mod.rs", "fn": "try_sig"},
             {"kind": "fn", "file": "src/algorithm/mod.rs", "fn": "try_"},
         ]},
